@@ -500,13 +500,25 @@ class frozen_time:
 
 
 class Payload:
-    def __init__(self, base, name, ops, uniq):
+    def __init__(self, base, name, ops, uniq, steer=0):
         self.dir = os.path.join(base, name)
         self.root = os.path.join(self.dir, "workspace")
         os.makedirs(self.dir)
         C8.build_tree(self.root, ops)
         with open(os.path.join(self.root, "payload-id"), "w") as f:       # pairwise different by construction
             f.write("payload %s\n" % uniq)
+        # artifact sizes matter (block and record boundaries of tar / gzip / the copy loops): two of three payloads
+        # get a filler whose size (0..40 KiB) and compressibility follow from the generated operations
+        import zlib
+        h = zlib.crc32(repr(ops).encode())
+        if h % 3:
+            unit = bytes((h >> (i % 24)) & 0xff for i in range(1 + (h >> 8) % 61)) if (h >> 4) & 1 else hashlib.sha256(b"%d" % h).digest() * 40
+            n = (h >> 3) % 40960
+            with open(os.path.join(self.root, "filler.bin"), "wb") as f:
+                f.write((unit * (n // len(unit) + 1))[:n])
+        if steer:
+            with open(os.path.join(self.root, "steer.bin"), "wb") as f:      # incompressible: artifact grows by ~steer bytes
+                f.write(hashlib.shake_256(b"steer").digest(steer))
         for dp, dn, fn in os.walk(os.fsencode(self.root)):
             for n in [b"."] + fn + dn:
                 try: os.utime(os.path.join(dp, n), ns=(10**18, 10**18), follow_symlinks=False)
@@ -551,6 +563,15 @@ def identify(scratch, data, payloads):
     ck = (scratch, key)
     if ck in _ident_cache:
         return _ident_cache[ck]
+    # complete: the whole gzip stream including its trailer is there (Bob's own streaming reader stops at the tar end
+    # marker and would accept an artifact whose tail is missing; gzip -t / tar xzf would not)
+    import gzip, zlib
+    try:
+        gzip.decompress(data)
+    except (EOFError, OSError, zlib.error) as e:
+        res = ("invalid", "not a complete gzip stream (%d bytes): %s" % (len(data), str(e)[:100]))
+        _ident_cache[ck] = res
+        return res
     arch = os.path.join(scratch, "ident-arch")
     dl = os.path.join(scratch, "ident-dl")
     ap = name_of(arch, BID, ".tgz")
@@ -652,6 +673,26 @@ class Single:
             # archive A holds payload Y (possibly damaged); the cache B is the archive under test
             self.Ydata = plain_upload(self.base, self.Y, "y")
             self.damage = case["mirror"]["damage"]
+            import zlib
+            crc = zlib.crc32(repr(case["ops"]).encode())
+            if self.damage[0] == "none" and crc & 1:
+                # boundary values: the tar stream reader fetches 512 bytes and then records of 10240 bytes; artifacts
+                # that end just behind such a boundary are the ones whose last bytes a consumer may never ask for.
+                # Half of the undamaged mirror cases get an incompressible file that moves the size 1..40 bytes
+                # behind the next boundary.
+                want = 1 + (crc >> 5) % 40
+                delta = 0
+                for attempt in range(3):      # (the first step also adds a tar header, the later ones only data)
+                    r = (len(self.Ydata) - 512) % 10240
+                    if 0 < r <= 45:
+                        break
+                    delta = max(1, (delta + (want - r)) % 10240)
+                    vlib.rmtree(self.Y.dir); vlib.rmtree(os.path.join(self.base, "sidey"))
+                    self.Y = Payload(self.base, "Y", case["ops"], "Y", steer=delta)
+                    self.payloads[0] = self.Y
+                    self.Ydata = plain_upload(self.base, self.Y, "y")
+                r = (len(self.Ydata) - 512) % 10240
+                ctx.label("single:mirror:size-just-behind-read-boundary" if 0 < r <= 45 else "single:mirror:size-steering-missed")
             d = self.damage
             data = self.Ydata
             if d[0] == "trunc":
